@@ -13,3 +13,28 @@ Proof. rewrite !Forall_forall. intros H x Hx. apply H. eapply In_firstn; eauto. 
 
 Lemma Forall_skipn' {A} (P : A -> Prop) n l : Forall P l -> Forall P (skipn n l).
 Proof. rewrite !Forall_forall. intros H x Hx. apply H. eapply In_skipn; eauto. Qed.
+
+Lemma skipn_skipn' {A} (x y : nat) (l : list A) : skipn x (skipn y l) = skipn (x + y) l.
+Proof.
+  revert l; induction y as [|y IH]; intro l.
+  - now rewrite Nat.add_0_r.
+  - rewrite Nat.add_succ_r. destruct l as [|a l]; [now rewrite !skipn_nil|]. cbn [skipn]. apply IH.
+Qed.
+
+Lemma nth_firstn' {A} (l : list A) : forall n i d, (i < n)%nat -> nth i (firstn n l) d = nth i l d.
+Proof.
+  induction l as [|x l IH]; intros n i d H; [now rewrite firstn_nil|].
+  destruct n as [|n]; [lia|]. destruct i as [|i]; [reflexivity|]. cbn [firstn nth]. apply IH. lia.
+Qed.
+
+Lemma nth_skipn' {A} (l : list A) : forall n i d, nth i (skipn n l) d = nth (n + i) l d.
+Proof.
+  induction l as [|x l IH]; intros n i d; [rewrite skipn_nil; now destruct i, n|].
+  destruct n as [|n]; [reflexivity|]. cbn [skipn plus nth]. apply IH.
+Qed.
+
+Lemma firstn_add' {A} (n m : nat) (l : list A) : firstn (n + m) l = firstn n l ++ firstn m (skipn n l).
+Proof.
+  revert l; induction n as [|n IH]; intro l; [reflexivity|].
+  destruct l as [|x l]; [now rewrite !firstn_nil|]. cbn [plus firstn skipn app]. now rewrite IH.
+Qed.
